@@ -48,6 +48,8 @@ def exp_leaf(l):
 
 
 def find_impl(fcp, name, protocol="can"):
+    if "@" in name:                      # "Name@protocol": a binding of another protocol that shares the name
+        name, protocol = name.split("@", 1)
     for i in fcp.impls:
         if i.name == name and i.protocol == protocol:
             return i
